@@ -12,7 +12,7 @@ Hypothesis HNil : P VNil.
 Hypothesis HBool : forall b, P (VBool b).
 Hypothesis HInt : forall z, P (VInt z).
 Hypothesis HFloat : forall sci b, P (VFloat sci b).
-Hypothesis HStr : forall s, P (VStr s).
+Hypothesis HStr : forall raw s, P (VStr raw s).
 Hypothesis HArr : forall l, Forall P l -> P (VArr l).
 Hypothesis HHash : forall tn fs, Forall (fun kv => P (snd kv)) fs -> P (VHash tn fs).
 
@@ -22,7 +22,7 @@ Fixpoint value_ind_nested (v : value) : P v :=
   | VBool b => HBool b
   | VInt z => HInt z
   | VFloat sci b => HFloat sci b
-  | VStr s => HStr s
+  | VStr raw s => HStr raw s
   | VArr l => HArr l ((fix go (l : list value) : Forall P l :=
                          match l with
                          | [] => Forall_nil _
@@ -272,7 +272,7 @@ Proof.
 Qed.
 
 Lemma all_ok_strs : forall (ks : list (list Z)),
-  all_ok (map (of_tree pf) (map JStr ks)) = Some (map VStr ks).
+  all_ok (map (of_tree pf) (map JStr ks)) = Some (map (VStr false) ks).
 Proof.
   induction ks as [|k ks IH]; simpl; [reflexivity|]. rewrite IH. reflexivity.
 Qed.
@@ -365,8 +365,8 @@ Proof.
   intros tn fs Hne Hok Hnd Hres.
   set (ks := keys_of fs).
   set (dm := map entry ((s_Atype, JStr tn) :: map plain_tree fs ++ [(s_zKeyOrder, JArr (map JStr ks))])).
-  assert (Edm : dm = (s_Atype, (JStr tn, Ok (VStr tn))) :: map entry (map plain_tree fs)
-                     ++ [(s_zKeyOrder, (JArr (map JStr ks), Ok (VArr (map VStr ks))))]).
+  assert (Edm : dm = (s_Atype, (JStr tn, Ok (VStr false tn))) :: map entry (map plain_tree fs)
+                     ++ [(s_zKeyOrder, (JArr (map JStr ks), Ok (VArr (map (VStr false) ks))))]).
   { unfold dm. cbn [map]. rewrite map_app. cbn [map entry of_tree]. rewrite all_ok_strs. reflexivity. }
   assert (Hent : forall kv, In kv fs ->
             In (key_text (fst kv), (tree_of fmt (snd kv), Ok (norm (snd kv)))) (map entry (map plain_tree fs))).
@@ -390,9 +390,9 @@ Proof.
     apply in_map_iff in He. destruct He as [[k0 x0] [E0 He]]. inversion E0; subst.
     rewrite Forall_forall in Hok. pose proof (Hok _ He) as Hk. unfold field_ok in Hk. simpl in Hk.
     simpl. rewrite Hk. reflexivity. }
-  assert (HlA : lookup s_Atype (put_all dm []) = Some (JStr tn, Ok (VStr tn))).
+  assert (HlA : lookup s_Atype (put_all dm []) = Some (JStr tn, Ok (VStr false tn))).
   { apply lookup_put_all_in; [exact Hndm|]. rewrite Edm. left. reflexivity. }
-  assert (HlZ : lookup s_zKeyOrder (put_all dm []) = Some (JArr (map JStr ks), Ok (VArr (map VStr ks)))).
+  assert (HlZ : lookup s_zKeyOrder (put_all dm []) = Some (JArr (map JStr ks), Ok (VArr (map (VStr false) ks)))).
   { apply lookup_put_all_in; [exact Hndm|]. rewrite Edm. right. apply in_or_app. right. left. reflexivity. }
   assert (HlF : forall kv, In kv fs ->
             lookup (key_text (fst kv)) (flat_map Fpairs (put_all dm [])) = Some (norm (snd kv))).
@@ -403,8 +403,8 @@ Proof.
   { rewrite count_put_all; [|exact Hndm|intros k _ []].
     cbn [flat_map length]. rewrite Nat.add_0_r. rewrite Edm. cbn [flat_map]. rewrite flat_map_app. cbn [flat_map].
     rewrite !app_length.
-    assert (E1 : Fpairs (s_Atype, (JStr tn, Ok (VStr tn))) = []) by reflexivity.
-    assert (E2 : Fpairs (s_zKeyOrder, (JArr (map JStr ks), Ok (VArr (map VStr ks)))) = []) by reflexivity.
+    assert (E1 : Fpairs (s_Atype, (JStr tn, Ok (VStr false tn))) = []) by reflexivity.
+    assert (E2 : Fpairs (s_zKeyOrder, (JArr (map JStr ks), Ok (VArr (map (VStr false) ks)))) = []) by reflexivity.
     rewrite E1, E2. simpl. rewrite Nat.add_0_r.
     clear - Hok Hres. induction fs as [|[k x] fs IH]; [reflexivity|].
     inversion Hok as [|? ? A1 A2]; inversion Hres as [|? ? B1 B2]; subst.
@@ -424,7 +424,7 @@ Proof. intros A f l H. apply Forall_forall. intros x Hx. rewrite forallb_forall 
 Theorem of_tree_tree_of : forall v, data fmt v = true -> no_reserved_keys v = true ->
   of_tree pf (tree_of fmt v) = Ok (norm v).
 Proof.
-  induction v as [| b | z | sci b | s | l IH | tn fs IH] using value_ind_nested; intros Hd Hr.
+  induction v as [| b | z | sci b | raw s | l IH | tn fs IH] using value_ind_nested; intros Hd Hr.
   - reflexivity.
   - reflexivity.
   - simpl. apply num_value_dec. exact Hd.
